@@ -352,15 +352,9 @@ func xbDerivedFrom(v ssa.Value, src map[ssa.Value]bool, depth int) bool {
 	return false
 }
 
-// XBCheckSeeker records the Seeker-family obligations for one Seek method and
-// returns its kind: "computing", "forwarding" or "" (not classified).
-func XBCheckSeeker(c *Ctx, ob string, fn *ssa.Function) string {
-	name := FuncName(fn)
-	offset, whence := ssa.Value(fn.Params[1]), ssa.Value(fn.Params[2])
-	offAl, whAl := Aliases(offset), Aliases(whence)
-	rels := XBEdgeRels(fn)
+func xbCaseEdges(fn *ssa.Function, whAl map[ssa.Value]bool) map[int64]EdgeSet {
 	caseEdges := map[int64]EdgeSet{}
-	for e, r := range rels {
+	for e, r := range XBEdgeRels(fn) {
 		if r.Op != token.EQL {
 			continue
 		}
@@ -378,7 +372,28 @@ func XBCheckSeeker(c *Ctx, ob string, fn *ssa.Function) string {
 			caseEdges[k][e] = true
 		}
 	}
-	// calls to other Seek(int64,int) methods
+	return caseEdges
+}
+
+func xbNegEdges(fn *ssa.Function, offAl map[ssa.Value]bool) EdgeSet {
+	neg := EdgeSet{}
+	for e, r := range XBEdgeRels(fn) {
+		x, y, op := r.X, r.Y, r.Op
+		if _, isK := XBInt64(x); isK {
+			x, y, op = y, x, XBSwap(op)
+		}
+		k, isK := XBInt64(y)
+		if !isK || !xbDerivedFrom(x, offAl, 0) {
+			continue
+		}
+		if (op == token.GEQ && k == 0) || (op == token.GTR && k == -1) {
+			neg[e] = true
+		}
+	}
+	return neg
+}
+
+func xbSeekForwards(fn *ssa.Function) []ssa.CallInstruction {
 	var fwd []ssa.CallInstruction
 	for _, call := range AllCalls(fn) {
 		ci := Callee(call)
@@ -391,9 +406,90 @@ func XBCheckSeeker(c *Ctx, ob string, fn *ssa.Function) string {
 		}
 		fwd = append(fwd, call)
 	}
+	return fwd
+}
+
+func xbRecvStores(fn *ssa.Function) []*ssa.Store {
+	if fn.Signature.Recv() == nil || len(fn.Params) == 0 {
+		return nil
+	}
+	recvPath := "p:" + fn.Params[0].Name()
+	var out []*ssa.Store
+	Instrs(fn, func(in ssa.Instruction) {
+		if st, ok := in.(*ssa.Store); ok {
+			if f, base := FieldOf(st.Addr); f != nil && PathOf(base) == recvPath {
+				out = append(out, st)
+			}
+		}
+	})
+	return out
+}
+
+// XBCheckSeeker records the Seeker-family obligations for one Seek method and
+// returns its kind: "computing", "forwarding" or "" (not classified).
+//
+// The interpretation of whence may live in the Seek method itself or in a
+// package-local helper that receives the (offset, whence) parameters (the
+// "resolver"); state changes may live in Seek, in the resolver, or in a
+// package-local helper that receives the target position.
+func XBCheckSeeker(c *Ctx, ob string, fn *ssa.Function) string {
+	name := FuncName(fn)
+	offset, whence := ssa.Value(fn.Params[1]), ssa.Value(fn.Params[2])
+	offAl, whAl := Aliases(offset), Aliases(whence)
+	local := func(g *ssa.Function) bool {
+		if g == nil || g.Blocks == nil || g == fn {
+			return false
+		}
+		r := g
+		for r.Parent() != nil {
+			r = r.Parent()
+		}
+		return r.Pkg != nil && r.Pkg == fn.Pkg
+	}
+	// ---- who interprets whence?
+	R := fn
+	rOffAl, rWhAl := offAl, whAl
+	var rcall ssa.CallInstruction
+	rArgOf := map[*ssa.Parameter]ssa.Value{} // resolver parameter -> argument in fn
+	caseEdges := xbCaseEdges(fn, whAl)
+	if len(caseEdges) == 0 {
+		for _, call := range AllCalls(fn) {
+			g := Callee(call).Static
+			if !local(g) {
+				continue
+			}
+			args := call.Common().Args
+			oi, wi := -1, -1
+			for i, a := range args {
+				if whAl[a] {
+					wi = i
+				}
+				if offAl[a] {
+					oi = i
+				}
+			}
+			if wi < 0 || wi >= len(g.Params) || oi < 0 || oi >= len(g.Params) {
+				continue
+			}
+			ce := xbCaseEdges(g, Aliases(ssa.Value(g.Params[wi])))
+			if len(ce) == 0 {
+				continue
+			}
+			R, rcall, caseEdges = g, call, ce
+			rOffAl, rWhAl = Aliases(ssa.Value(g.Params[oi])), Aliases(ssa.Value(g.Params[wi]))
+			for i, a := range args {
+				if i < len(g.Params) {
+					rArgOf[g.Params[i]] = a
+				}
+			}
+			break
+		}
+	}
+	_ = rWhAl
+	fwd := xbSeekForwards(fn)
 	isSelf := func(call ssa.CallInstruction) bool {
-		ci := Callee(call)
-		return ci.Static != nil && ci.Static == fn
+		g := Callee(call).Static
+		return g != nil && (g == fn || g == R)
 	}
 	if len(caseEdges) == 0 {
 		n := 0
@@ -414,21 +510,28 @@ func XBCheckSeeker(c *Ctx, ob string, fn *ssa.Function) string {
 		}
 		return "forwarding"
 	}
-	// ---- computing seeker
-	// (a) exhaustive dispatch with an error default
-	var all EdgeSet = EdgeSet{}
-	missing := ""
-	for k, nm := range map[int64]string{0: "io.SeekStart", 1: "io.SeekCurrent", 2: "io.SeekEnd"} {
-		if len(caseEdges[k]) == 0 {
-			missing += " " + nm
-		}
-		all = all.Union(caseEdges[k])
+	// ---- computing seeker (R interprets whence)
+	errIdx := R.Signature.Results().Len() - 1
+	isSuccess := func(r *ssa.Return) bool {
+		return errIdx >= 0 && len(r.Results) == errIdx+1 && IsErrorType(r.Results[errIdx].Type()) && IsNilConst(r.Results[errIdx])
 	}
-	c.Check(missing == "", ob, "R-EXH", name, "whence-cases", fn.Pos(), "whence dispatch handles SeekStart, SeekCurrent and SeekEnd", "whence dispatch does not handle:"+missing)
+	// (a) exhaustive dispatch with an error default
+	all := EdgeSet{}
+	missing := ""
+	for _, kn := range []struct {
+		k  int64
+		nm string
+	}{{0, "io.SeekStart"}, {1, "io.SeekCurrent"}, {2, "io.SeekEnd"}} {
+		if len(caseEdges[kn.k]) == 0 {
+			missing += " " + kn.nm
+		}
+		all = all.Union(caseEdges[kn.k])
+	}
+	c.Check(missing == "", ob, "R-EXH", name, "whence-cases", R.Pos(), "whence dispatch handles SeekStart, SeekCurrent and SeekEnd", "whence dispatch does not handle:"+missing)
 	defOK := true
-	var defPos token.Pos = fn.Pos()
-	for _, r := range Returns(fn) {
-		if len(r.Results) == 2 && IsNilConst(r.Results[1]) && Reaches(fn, nil, r, all, nil) {
+	var defPos token.Pos = R.Pos()
+	for _, r := range Returns(R) {
+		if isSuccess(r) && Reaches(R, nil, r, all, nil) {
 			defOK = false
 			defPos = r.Pos()
 		}
@@ -443,7 +546,7 @@ func XBCheckSeeker(c *Ctx, ob string, fn *ssa.Function) string {
 			continue
 		}
 		n := 0
-		Instrs(fn, func(in ssa.Instruction) {
+		Instrs(R, func(in ssa.Instruction) {
 			b, ok := in.(*ssa.BinOp)
 			if !ok || (b.Op != token.ADD && b.Op != token.SUB) {
 				return
@@ -451,14 +554,14 @@ func XBCheckSeeker(c *Ctx, ob string, fn *ssa.Function) string {
 			x, y := XBStripConv(b.X), XBStripConv(b.Y)
 			var other ssa.Value
 			switch {
-			case offAl[x]:
+			case rOffAl[x]:
 				other = y
-			case offAl[y]:
+			case rOffAl[y]:
 				other = x
 			default:
 				return
 			}
-			if !Reaches(fn, nil, in, nil, nil) || Reaches(fn, nil, in, caseEdges[kk.k], nil) {
+			if !Reaches(R, nil, in, nil, nil) || Reaches(R, nil, in, caseEdges[kk.k], nil) {
 				return // not specific to this case
 			}
 			n++
@@ -468,61 +571,103 @@ func XBCheckSeeker(c *Ctx, ob string, fn *ssa.Function) string {
 				kk.what+" target is computed as base - offset: io.Seeker requires base + offset (Seek(-3, "+kk.what+") moves forward instead of backward)")
 			if kk.k == 2 {
 				sizeish := false
-				for _, r := range Roots(other, nil) {
-					if call, ok := IsCallTo(r, M("", "", "Size")); ok && call != nil {
-						sizeish = true
-					}
-					if u, ok := r.(*ssa.UnOp); ok && u.Op == token.MUL {
-						if f, _ := FieldOf(u.X); f != nil && (f.Name() == "size" || f.Name() == "Size") {
+				var test func(v ssa.Value, d int)
+				test = func(v ssa.Value, d int) {
+					for _, r := range Roots(v, nil) {
+						if call, ok := IsCallTo(r, M("", "", "Size")); ok && call != nil {
 							sizeish = true
+						}
+						if u, ok := r.(*ssa.UnOp); ok && u.Op == token.MUL {
+							if f, _ := FieldOf(u.X); f != nil && (f.Name() == "size" || f.Name() == "Size") {
+								sizeish = true
+							}
+						}
+						// a parameter of the resolver: look at what the Seek method passes
+						if par, ok := r.(*ssa.Parameter); ok && d < 2 {
+							if a := rArgOf[par]; a != nil {
+								test(a, d+1)
+							}
 						}
 					}
 				}
+				test(other, 0)
 				c.Check(sizeish, ob, "R-SIB", name, "SeekEnd-base=size", b.Pos(), "SeekEnd is relative to the size", "SeekEnd target is not relative to a Size()/size value ("+PathOf(other)+")")
 			}
 		})
 		if n == 0 {
-			c.Bad(ob, "R-SIB", name, kk.what+"-target=base+offset", fn.Pos(), kk.what+" branch does not compute base + offset from the offset parameter")
+			c.Bad(ob, "R-SIB", name, kk.what+"-target=base+offset", R.Pos(), kk.what+" branch does not compute base + offset from the offset parameter")
 		}
 	}
-	// (c) negative targets rejected before any state change / forwarding
-	neg := EdgeSet{}
-	for e, r := range rels {
-		x, y, op := r.X, r.Y, r.Op
-		if _, isK := XBInt64(x); isK {
-			x, y, op = y, x, XBSwap(op)
-		}
-		k, isK := XBInt64(y)
-		if !isK || !xbDerivedFrom(x, offAl, 0) {
-			continue
-		}
-		if (op == token.GEQ && k == 0) || (op == token.GTR && k == -1) {
-			neg[e] = true
-		}
-	}
-	recvPath := "p:" + fn.Params[0].Name()
+	// (c) negative targets rejected before any state change / forwarding / success of the resolver
 	var unguarded []string
 	pos := fn.Pos()
-	Instrs(fn, func(in ssa.Instruction) {
-		switch x := in.(type) {
-		case *ssa.Store:
-			f, base := FieldOf(x.Addr)
-			if f == nil || PathOf(base) != recvPath {
-				return
+	negR := xbNegEdges(R, rOffAl)
+	flag := func(what string, p token.Pos) {
+		unguarded = append(unguarded, what)
+		pos = p
+	}
+	// constructs inside the resolver
+	for _, st := range xbRecvStores(R) {
+		if Reaches(R, nil, st, negR, nil) {
+			f, _ := FieldOf(st.Addr)
+			flag("store to "+f.Name(), st.Pos())
+		}
+	}
+	for _, fc := range xbSeekForwards(R) {
+		if !isSelf(fc) && Reaches(R, nil, fc, negR, nil) {
+			flag("forward to "+Callee(fc).String(), fc.Pos())
+		}
+	}
+	if R != fn {
+		for _, r := range Returns(R) {
+			if isSuccess(r) && Reaches(R, nil, r, negR, nil) {
+				flag("success return of "+R.Name(), r.Pos())
 			}
-			if Reaches(fn, nil, in, neg, nil) {
-				unguarded = append(unguarded, "store to "+f.Name())
-				pos = in.Pos()
+		}
+		// constructs of the Seek method: only after the resolver succeeded (or a local test)
+		guards := xbNegEdges(fn, offAl).Union(XBErrNilEdges(fn, rcall))
+		for _, st := range xbRecvStores(fn) {
+			if Reaches(fn, nil, st, guards, nil) {
+				f, _ := FieldOf(st.Addr)
+				flag("store to "+f.Name(), st.Pos())
 			}
-		case ssa.CallInstruction:
-			for _, fc := range fwd {
-				if fc == x && !isSelf(fc) && Reaches(fn, nil, in, neg, nil) {
-					unguarded = append(unguarded, "forward to "+Callee(fc).String())
-					pos = in.Pos()
+		}
+		for _, fc := range fwd {
+			if !isSelf(fc) && Reaches(fn, nil, fc, guards, nil) {
+				flag("forward to "+Callee(fc).String(), fc.Pos())
+			}
+		}
+	}
+	// state changes in package-local helpers that receive the target position
+	for _, call := range AllCalls(R) {
+		g := Callee(call).Static
+		if !local(g) || g == R {
+			continue
+		}
+		for i, a := range call.Common().Args {
+			if i >= len(g.Params) || !xbDerivedFrom(a, rOffAl, 0) {
+				continue
+			}
+			if !Reaches(R, nil, call, negR, nil) {
+				continue // the call itself is guarded
+			}
+			negG := xbNegEdges(g, Aliases(ssa.Value(g.Params[i])))
+			for _, st := range xbRecvStores(g) {
+				if Reaches(g, nil, st, negG, nil) {
+					f, _ := FieldOf(st.Addr)
+					flag("store to "+f.Name()+" in "+g.Name(), st.Pos())
+				}
+			}
+			for _, fc := range xbSeekForwards(g) {
+				if cg := Callee(fc).Static; cg != nil && (cg == fn || cg == R || cg == g) {
+					continue
+				}
+				if Reaches(g, nil, fc, negG, nil) {
+					flag("forward to "+Callee(fc).String()+" in "+g.Name(), fc.Pos())
 				}
 			}
 		}
-	})
+	}
 	detail := ""
 	seen := map[string]bool{}
 	for _, u := range unguarded {
@@ -554,4 +699,176 @@ func XBCheckSeeker(c *Ctx, ob string, fn *ssa.Function) string {
 			"forwarded seek uses a pair that is neither the caller's (offset, whence) nor (target, io.SeekStart)")
 	}
 	return "computing"
+}
+
+// ---------------------------------------------------------------------------
+// Round 3: reasoning through package-local helpers
+
+// XBGraph is the static call graph among a set of functions (closures count
+// as functions of their own; a call made inside a closure belongs to it).
+type XBGraph struct {
+	Callers map[*ssa.Function][]ssa.CallInstruction
+	In      map[*ssa.Function]bool
+}
+
+// XBLocalGraph builds the graph of static calls among fns.
+func XBLocalGraph(fns []*ssa.Function) *XBGraph {
+	g := &XBGraph{Callers: map[*ssa.Function][]ssa.CallInstruction{}, In: map[*ssa.Function]bool{}}
+	for _, f := range fns {
+		g.In[f] = true
+	}
+	for _, f := range fns {
+		for _, call := range AllCalls(f) {
+			if _, isGo := call.(*ssa.Go); isGo {
+				continue
+			}
+			if t := Callee(call).Static; t != nil && g.In[t] {
+				g.Callers[t] = append(g.Callers[t], call)
+			}
+		}
+	}
+	return g
+}
+
+// HeldUp: pred holds for (fn, site), or fn is only reached through static
+// call sites for which it holds (recursively, at most depth frames up). This
+// is the "caller holds" summary: a site inside a helper is guarded when every
+// call site of the helper is guarded.
+func (g *XBGraph) HeldUp(fn *ssa.Function, site ssa.Instruction, pred func(f *ssa.Function, s ssa.Instruction) bool, depth int) bool {
+	if pred(fn, site) {
+		return true
+	}
+	if depth <= 0 {
+		return false
+	}
+	cs := g.Callers[fn]
+	if len(cs) == 0 {
+		return false
+	}
+	outer := 0
+	for _, call := range cs {
+		if call.Parent() == fn {
+			continue // recursion does not add a new context
+		}
+		outer++
+		if !g.HeldUp(call.Parent(), call, pred, depth-1) {
+			return false
+		}
+	}
+	return outer > 0
+}
+
+// HeldUpV is HeldUp with a tracked value: when climbing to a caller, a tracked
+// parameter is replaced by the corresponding argument (conversions stripped);
+// any other value cannot be followed and becomes nil.
+func (g *XBGraph) HeldUpV(fn *ssa.Function, site ssa.Instruction, val ssa.Value, pred func(f *ssa.Function, s ssa.Instruction, v ssa.Value) bool, depth int) bool {
+	if pred(fn, site, val) {
+		return true
+	}
+	if depth <= 0 {
+		return false
+	}
+	cs := g.Callers[fn]
+	if len(cs) == 0 {
+		return false
+	}
+	idx := -1
+	if par, ok := XBStripConv(val).(*ssa.Parameter); ok {
+		for i, q := range fn.Params {
+			if q == par {
+				idx = i
+			}
+		}
+	}
+	outer := 0
+	for _, call := range cs {
+		if call.Parent() == fn {
+			continue
+		}
+		var v ssa.Value
+		if args := call.Common().Args; idx >= 0 && !call.Common().IsInvoke() && idx < len(args) {
+			v = XBStripConv(args[idx])
+		}
+		outer++
+		if !g.HeldUpV(call.Parent(), call, v, pred, depth-1) {
+			return false
+		}
+	}
+	return outer > 0
+}
+
+// XBPerforms computes the functions (among the graph's functions) that execute
+// an action on every path from entry to every non-failing return, where an
+// action is an instruction accepted by isAct or a call to a function already
+// known to perform it. isFailure classifies returns that need not be covered.
+func (g *XBGraph) XBPerforms(isAct func(ssa.Instruction) bool, isFailure func(*ssa.Function, *ssa.Return) bool) map[*ssa.Function]bool {
+	out := map[*ssa.Function]bool{}
+	for changed := true; changed; {
+		changed = false
+		for f := range g.In {
+			if out[f] {
+				continue
+			}
+			var acts []ssa.Instruction
+			Instrs(f, func(in ssa.Instruction) {
+				if isAct(in) {
+					acts = append(acts, in)
+					return
+				}
+				if call, ok := in.(ssa.CallInstruction); ok {
+					if t := Callee(call).Static; t != nil && out[t] {
+						acts = append(acts, in)
+					}
+				}
+			})
+			if len(acts) == 0 {
+				continue
+			}
+			blocked := map[ssa.Instruction]bool{}
+			for _, a := range acts {
+				blocked[a] = true
+			}
+			all := true
+			for _, r := range Returns(f) {
+				if isFailure != nil && isFailure(f, r) {
+					continue
+				}
+				if Reaches(f, nil, r, nil, blocked) {
+					all = false
+				}
+			}
+			if all {
+				out[f] = true
+				changed = true
+			}
+		}
+	}
+	return out
+}
+
+// XBActs lists the instructions of fn that are actions: accepted by isAct, or
+// calls to functions in performs.
+func XBActs(fn *ssa.Function, isAct func(ssa.Instruction) bool, performs map[*ssa.Function]bool) []ssa.Instruction {
+	var acts []ssa.Instruction
+	Instrs(fn, func(in ssa.Instruction) {
+		if isAct(in) {
+			acts = append(acts, in)
+			return
+		}
+		if call, ok := in.(ssa.CallInstruction); ok {
+			if t := Callee(call).Static; t != nil && performs[t] {
+				acts = append(acts, in)
+			}
+		}
+	})
+	return acts
+}
+
+// XBDerivedFromOffset reports whether v is the offset parameter of Seek method
+// fn or a target computed from it by additions / phis.
+func XBDerivedFromOffset(fn *ssa.Function, v ssa.Value) bool {
+	if !XBIsSeek(fn) || v == nil {
+		return false
+	}
+	return xbDerivedFrom(v, Aliases(ssa.Value(fn.Params[1])), 0)
 }
